@@ -195,6 +195,13 @@ func init() {
 				q := genRequest(r, ReqOpts{MaxBiases: 4, Methods: []string{"weightedSum", "majorityHeuristic", "electreIII", "satisfactionHeuristic", "aspectEliminationHeuristic"},
 					Biases: []string{"criteriaOmission", "preferenceReversal", "fatigue", "anchoring"}})
 				bl, _ := q.Body["biases"].([]interface{})
+				if r.chance(0.12) && len(q.Problem.Criteria) >= 2 {
+					// criteria mixing as the first bias (it needs two current criteria to have anything to report)
+					mix := J{"name": "criteriaMixing", "props": biasPropsJSON(r, "criteriaMixing", q.Problem)}
+					bl = append([]interface{}{mix}, bl...)
+					q.Body["biases"] = bl
+					o.count("real:mixing-first")
+				}
 				for _, b := range bl { // sprinkle disabled entries and probabilities
 					if r.chance(0.2) {
 						b.(J)["disabled"] = true
